@@ -197,7 +197,9 @@ class Module(object):
         # behaviour-preserving normalisation (helpers that are not part of the reference tree are inlined)
         from . import normalize
         self.normalize_log = normalize.inline_new_helpers(self.tree, name)
+        self.normalize_log += normalize.desugar_struct_objects(self.tree)
         self.normalize_log += normalize.unroll_reflective_loops(self.tree)
+        self.normalize_log += normalize.thread_flags(self.tree)
         self.normalize_log += normalize.strip_passthrough_wrappers(self.tree, name)
         self.wrapped = getattr(self.tree, "_wrapped", {})  # id(expr node) -> pass-through wrapper it was handed to
         self.funcs = {}
